@@ -541,9 +541,9 @@ thm("C03", ["C03", "C03M", "C07V"], ["C12_vec_unaligned_paths", "C07_vec128_bloc
             "C03_mantis_spec", "C03_mantis_impl", "crypt_flip", "C02_swap_enc_is_dec"])
 thm("C04", ["C04"], ["C04_skinny128", "C04_skinny64"])
 VEC_INC = ["C05_v128c_increment", "C05_v256c_increment", "C05_v64c_increment", "C05_vmc_increment",
-           "C06_vec128_keystream", "C06_vec256_keystream", "C06_vec64_keystream", "C06_mantis_vec128_keystream", "C05_lane_increment_sequences"]
-thm("C05", ["C05", "C06", "C05V", "C06V", "C07M"], ["C05_stream", "C05_init", "C05_involution", "C05_calls", "C05_C06_instances"] + VEC_INC)
-thm("C06", ["C06", "C05V", "C06V", "C07M"], ["C06_ctr", "C06_step", "C06_init", "C05_C06_instances"] + VEC_INC)
+           "C06_vec128_keystream", "C06_vec256_keystream", "C06_vec64_keystream", "C06_mantis_vec128_keystream", "C05_lane_increment_sequences", "C09_xor_blocks", "C09_xor_partial"]
+thm("C05", ["C05", "C06", "C05V", "C06V", "C07M", "C09X"], ["C05_stream", "C05_init", "C05_involution", "C05_calls", "C05_C06_instances"] + VEC_INC)
+thm("C06", ["C06", "C05V", "C06V", "C07M", "C09X"], ["C06_ctr", "C06_step", "C06_init", "C05_C06_instances"] + VEC_INC)
 def search_c13(run, tier, rng):
     """a C13 theorem no longer checks: (1) the emulated-CPU matrix at full size against the real code;
     (2) the generated probe model against the architectural specification (covers XCR0, which cannot be emulated)"""
@@ -573,7 +573,7 @@ PROPS["C07"]["modules"] += ["SkinnyVerif.Properties.C07M", "SkinnyVerif.Properti
 PROPS["C07"]["theorems"] += [P + "parallelBatched_eq_ecb", P + "C07_vec128_whole_buffer", P + "ecb_append"]
 _c07 = PROPS["C07"]
 thm("C08", ["C08"], ["C08_no_leak_events", "C08_table_complete"])
-thm("C09", ["C08"], ["C09_block_functions", "C09_table_complete", "C09_vector_batch_functions", "C09_vector_table_complete", "C11_no_junk_in_loaders"])
+thm("C09", ["C08", "C09X"], ["C09_block_functions", "C09_table_complete", "C09_vector_batch_functions", "C09_vector_table_complete", "C09_xor_blocks", "C09_xor_partial", "C09_xor_access", "C11_no_junk_in_loaders"])
 PROPS["C09"]["modules"].append("SkinnyVerif.Properties.C11")
 thm("C18", ["C18", "C13", "C18I"], ["C18_no_mutable_statics", "C18_census_nonempty", "C18_parallel_crypt_read_only", "C18_mantis_parallel_crypt_read_only", "setVal_comm", "C13_deterministic",
             "callStep_frame", "C18_calls_commute", "C18_interleaving", "C18_interleaving_reachable", "goodW_of_inv"])
